@@ -104,6 +104,14 @@ func verifyFunc(prog *ssa.Program, fn *ssa.Function, ctr *Contract, all map[stri
 		}
 		e.assumeRangeDeep("true", v, 0)
 		e.preBound(v, 0)
+		if g, ok := ctr.Callbacks[p.Name()]; ok {
+			sig, isSig := p.Type().Underlying().(*types.Signature)
+			if !isSig || sig.Params().Len() < 1 {
+				panic("callback: " + p.Name() + " is not a function with a parameter")
+			}
+			v.cb = g
+			e.hsort["G_"+g] = fmt.Sprintf("(Array %s Bool)", e.sc.sortOf(sig.Params().At(0).Type()))
+		}
 		f.vals[p] = v
 		f.params[p.Name()] = v
 		e.paramSyms = append(e.paramSyms, paramSym{p.Name(), t, p.Type()})
@@ -120,7 +128,10 @@ func verifyFunc(prog *ssa.Program, fn *ssa.Function, ctr *Contract, all map[stri
 		e.assume("true", f.evalSpec(a.Src, st0, nil, st0))
 		e.noteAssumed("axiom (ghost definition, unchecked) in " + name + ": " + a.Src)
 	}
-	for _, r := range ctr.Requires {
+	dreq, dens := e.derived(fn, ctr)
+	requires := append(append([]Clause{}, ctr.Requires...), dreq...)
+	ensures := append(append([]Clause{}, ctr.Ensures...), dens...)
+	for _, r := range requires {
 		e.assume("true", f.evalSpec(r.Src, st0, nil, st0))
 	}
 	// vacuity guard: the precondition must be satisfiable
@@ -133,24 +144,55 @@ func verifyFunc(prog *ssa.Program, fn *ssa.Function, ctr *Contract, all map[stri
 		return e
 	}
 	f.exec("true", st0)
-	for ri, r := range f.rets {
+	if len(f.rets) == 0 {
+		panic("function has no reachable return")
+	}
+	// one obligation per clause over the merged exit state (linear in the
+	// function instead of clauses x returns)
+	{
+		var pairs []condState
+		var rc []string
+		for _, r := range f.rets {
+			pairs = append(pairs, condState{r.reach, r.st})
+			rc = append(rc, r.reach)
+		}
+		mst := e.mergeStates(pairs)
+		anyRet := e.define("reach_ret", "Bool", orTerms(rc))
 		env := map[string]Val{}
-		if len(r.vals) == 1 {
-			env["result"] = r.vals[0]
+		nres := fn.Signature.Results().Len()
+		for i := 0; i < nres; i++ {
+			t := fn.Signature.Results().At(i).Type()
+			var term string
+			for k := len(f.rets) - 1; k >= 0; k-- {
+				rv := f.rets[k].vals[i]
+				if rv.term == interiorPtr {
+					panic("function returns an interior pointer")
+				}
+				if term == "" {
+					term = rv.term
+				} else {
+					term = fmt.Sprintf("(ite %s %s %s)", f.rets[k].reach, rv.term, term)
+				}
+			}
+			v := Val{term: e.define("result", e.sc.sortOf(t), term), typ: t}
+			env[fmt.Sprintf("result%d", i)] = v
+			if nres == 1 {
+				env["result"] = v
+			}
 		}
-		for i, rv := range r.vals {
-			env[fmt.Sprintf("result%d", i)] = rv
-		}
-		f.cur = fn.Blocks[r.blk]
-		for _, en := range ctr.Ensures {
-			o := e.oblige("post", fmt.Sprintf("%s/post:%s", name, en.Label), fmt.Sprintf("ret%d", ri), r.reach, f.evalSpec(en.Src, r.st, env, st0))
+		f.cur = nil
+		f.curSt = mst
+		for _, en := range ensures {
+			o := e.oblige("post", fmt.Sprintf("%s/post:%s", name, en.Label), "", anyRet, f.evalSpec(en.Src, mst, env, st0))
 			o.Slow = en.Slow
 		}
+		if ctr.HasAssigns || ctr.Pure {
+			f.frameObligation(retPoint{reach: anyRet, st: mst}, st0, 0)
+		}
+	}
+	for ri, r := range f.rets {
 		// cover: this return must be reachable under the precondition
 		e.oblige("cover", name+"/cover", fmt.Sprintf("ret%d", ri), "true", fmt.Sprintf("(not %s)", r.reach))
-		if ctr.HasAssigns || ctr.Pure {
-			f.frameObligation(r, st0, ri)
-		}
 	}
 	if len(f.rets) == 0 {
 		panic("function has no reachable return")
